@@ -146,6 +146,8 @@ pub fn sample_json(rec: &RunRecord, i: u64) -> serde_json::Value {
 /// many distinct tuples a batch reached.
 pub fn abstract_states(d: &Digest, out: &mut BTreeSet<u64>) {
     use crate::world::K;
+    let call_of: std::collections::HashMap<(usize, usize), usize> = d.calls.iter().enumerate().rev().map(|(i, c)| ((c.thr, c.idx), i)).collect();
+    let sub_chans: std::collections::HashSet<u32> = d.reg_chan.values().chain(d.iter_chan.values()).cloned().collect();
     for (s, sd) in d.stores.iter().enumerate() {
         let (mut qlen, mut inflight, mut phase, mut closing, mut closed, mut workers, mut subq) = (0usize, 0i32, 0u8, false, false, 0i32, 0usize);
         let prefix = format!("{}-pool", sd.model.name);
@@ -153,10 +155,10 @@ pub fn abstract_states(d: &Digest, out: &mut BTreeSet<u64>) {
         for e in d.ev {
             match &e.k {
                 K::ChSend { chan, len } | K::ChRecv { chan, len } if Some(*chan) == sd.dchan => qlen = *len,
-                K::ChSend { chan, len } | K::ChRecv { chan, len } if d.reg_chan.values().any(|c| c == chan) || d.iter_chan.values().any(|c| c == chan) => subq = (*len).min(2),
+                K::ChSend { chan, len } | K::ChRecv { chan, len } if sub_chans.contains(chan) => subq = (*len).min(2),
                 K::Inv { op: crate::world::OpK::Dispatch { store, .. }, .. } if *store == s => inflight += 1,
                 K::Ret { thr, idx, .. } => {
-                    if let Some(c) = d.calls.iter().find(|c| c.thr == *thr && c.idx == *idx) {
+                    if let Some(c) = call_of.get(&(*thr, *idx)).map(|&i| &d.calls[i]) {
                         match c.op {
                             crate::world::OpK::Dispatch { store, .. } if store == s => inflight -= 1,
                             crate::world::OpK::Stop { store } | crate::world::OpK::DropStore { store } if store == s => closed = true,
@@ -358,7 +360,8 @@ pub fn run_one(prop: &str, batch_seed: u64, i: u64, fixed_family: Option<&str>) 
         if !d.complete && rec.out.end == simrt::End::Deadlock {
             *st.inconclusive.entry("deadlocked_run_excluded_from_other_oracles".into()).or_default() += 1;
         }
-        if st.samples.len() < 2 && d.complete && nontrivial(prop, &d) {
+        // (a sample is meant to be read: the scale families' programs of thousands of operations are not)
+        if st.samples.len() < 2 && d.complete && prog.threads.iter().map(|t| t.len()).sum::<usize>() <= 400 && nontrivial(prop, &d) {
             st.samples.push(sample_json(&rec, i));
         }
         for v in crate::oracle::check_all(&d) {
